@@ -169,6 +169,30 @@ CHECKS["C18"] = {
     "technique": "static analysis: stencil rule, dtype round-trip rule, effect analysis with the in_place flag, provenance of the random draw's arguments, purity",
 }
 
+CHECKS["C16"] = {
+    "level": "other",
+    "text": ("Decides: the statistics matrix is only ever created as float64 zeros and incremented (+=) with increments that do not "
+             "read it back; vector and tensor accumulators update the same three regions with float64 increments (dtype lattice); "
+             "both appliers use count, mean = sums/count, var = squares/count - mean^2 and x*scale - mean*scale (closed forms), "
+             "scale iff norm_var with zero-variance replacement first; any attribute derived from the statistics is invalidated by "
+             "every writer of the statistics; dimension checks precede updates; float64 result; in-place writes only with in_place. "
+             "Does NOT decide numerical values or the moments of locally standardised tensors."),
+    "design_ref": "DESIGN.md §3 C16",
+    "note": NOTE_COMMON,
+    "technique": "static analysis: who-may-write/additive-update rule, sibling closed forms, dtype lattice, derived-state invalidation (must-write), effect analysis with the in_place flag",
+}
+CHECKS["C17"] = {
+    "level": "other",
+    "text": ("Decides: NpzFile typestate in save (never mutated, expanded via dict), the raw loader's validity predicate constrains only "
+             "floating-point invariants of the accumulators (integral non-negative count, non-negative squares), ValueError guard "
+             "first, suffix dispatch writes the whole matrix with matching readers, overwrite flag controls loading of the existing "
+             "archive, default key found by a membership search from arr_0. Does NOT decide equality of the reloaded transform nor "
+             "the float32/float64 re-interpretation heuristic."),
+    "design_ref": "DESIGN.md §3 C17",
+    "note": NOTE_COMMON,
+    "technique": "static analysis: typestate via reaching definitions, whitelist of accumulator invariants in normal form, structural save/load rules",
+}
+
 _PENDING = "check not built yet in this session (static-analysis clauses planned in DESIGN.md §3)"
 NOT_APPLICABLE = {("C%02d" % i): _PENDING for i in range(1, 21) if ("C%02d" % i) not in CHECKS}
 
